@@ -601,7 +601,9 @@ class G:
     def prog_iteration(self):
         self.tag("profile:iteration")
         lines = []
-        its = ["[]", "[1]", "[3, 1, 2]", "()", "(7,)", "(1, 2, 3)", "0..0", "0..4", "4..0", "-2..2", '""', '"a"', '"aé€😀"']
+        its = ["[]", "[1]", "[3, 1, 2]", "()", "(7,)", "(1, 2, 3)", "0..0", "0..4", "4..0", "-2..2", '""', '"a"', '"aé€😀"',
+               # one string per UTF-8 lead-byte class (C2-DF two bytes incl. D0-DF, E0-EF three, F0-F4 four) and mixtures
+               '"дa!"', '"שלם"', '"߿ÿĀ"', '"ࠀ퟿"', '"𐀀􏿿z"']
         it = self.r.choice(its)
         k = self.r.below(8)
         isstr = it.startswith('"')
